@@ -272,11 +272,16 @@ def main(argv=None):
             direct = []
             for ts, _, _ in ic.run_impl(rx, [], 0, 0, frames, False)[0]:
                 direct.extend(ts)
-            for style in (0, 1, 2):
+            for style in (0, 1, 2, 3, "split"):
                 # lines which are no frames (blank, white space, comments) and CRLF line ends change nothing
                 junk = {rng.randrange(len(frames) + 1): rng.choice(ic.JUNK_LINES) for _ in range(rng.choice([0, 1, 2]))}
                 eol = rng.choice(["\n", "\n", "\r\n"])
-                got, warn = ic.run_impl_log(rx, frames, lambda k, d: style, junk, eol)
+                if style == "split":
+                    # a log rotated into two files at any line, read by the same reassembler one after the other
+                    cut = rng.randrange(len(frames) + 1)
+                    got, warn = ic.run_impl_log(rx, frames, lambda k, d: 1, None, "\n", split_at=cut)
+                else:
+                    got, warn = ic.run_impl_log(rx, frames, lambda k, d: style, junk, eol)
                 ck.hist("log_junk", f"{len(junk)} junk lines, eol {eol!r}")
                 if got != direct:
                     ck.violation(
